@@ -69,6 +69,8 @@ def engine_configs(rng):
     cfgs += rng.sample(extra, 2)
     for c in cfgs:
         c['probe'] = rng.choice(['touched', 'touched', 'off'])
+        if rng.random() < 0.2:
+            c['via'] = 'quickstart'      # the public wrapper (flipjump.run) instead of fjm_run.run
     return cfgs
 
 
